@@ -14,6 +14,9 @@ again while the sender is still delivering (re-entrancy), destinations that rais
 import EdzedModel.Output
 import EdzedProofs.Output
 import EdzedModel.Gen.TranslatedOutput
+import EdzedModel.EventTuple
+import EdzedModel.Gen.TranslatedEvTuple
+import EdzedProps.C18
 
 namespace Edzed.Output
 
@@ -349,6 +352,29 @@ example :
     ((sendsOf .output 1 (run .sblock c .undef vs)).map (·.result.isSome)) = [false, true, true] := by
   decide +kernel
 
+/-- no item name is reserved: whatever key a filter puts into the event data — also `etype`, `self`,
+    `data`, `source`, the parameter names of the `event` / `send` methods on the delivery path — the
+    destination handler is called and finds exactly that item, the other items as the rest of the
+    pipeline left them: the data mapping reaches the handler unchanged for EVERY key set -/
+theorem handler_receives_every_key (k : BKind) (c : Cfg) (out : Val) (vs : List Val) :
+    ∀ r ∈ run k c out vs, ∀ s ∈ r.sends, ∀ (fs : List Filt) (key : String) (v : Val) (d' : Data),
+      s.ev.filters = fs ++ [.set key v] → runFilters fs s.raw = some d' →
+      ∃ d, s.result = some d ∧ d.get? key = some v ∧ (∀ k', k' ≠ key → d.get? k' = d'.get? k') ∧
+        s.acts.getLast? = some (.deliver s.slot s.idx s.ev.dest s.ev.etype d s.visible) := by
+  intro r hr s hs fs key v d' hf hd'
+  rw [mem_run _ c out vs r hr] at hs
+  have hres := (mem_sends _ c _ _ s hs).2.2.2.1
+  have : s.result = some (d'.set key v) := by
+    rw [hres, hf, runFilters_append, hd']; rfl
+  exact ⟨_, this, get?_set_self d' key v, fun k' hk => get?_set_other d' key k' v hk, by simp [Sent.acts, this]⟩
+
+/-- non-vacuity: a filter pipeline ending with `d['etype'] = 'x'` on a real history -/
+example :
+    ((sendsOf .output 0 (run .sblock { name := "s", onOutput := [⟨"p2", "o0", [.del "trigger", .set "etype" (Val.str "x")]⟩] }
+        .undef [Val.int 1])).map (fun s => (s.result.bind (·.get? "etype"), s.result.bind (·.get? "value")))) =
+      [(some (Val.str "x"), some (Val.int 1))] := by
+  decide +kernel
+
 /-! ### float NaN: the value that is not equal to itself -/
 
 /-- NaN compares unequal to everything, itself included (`previous == value` is False even when
@@ -489,5 +515,105 @@ theorem store_and_enqueue_before_sending (own v : Val) (every : List Ev)
   unfold setOutputActs
   simp only [hu, hch, Bool.false_eq_true, ↓reduceIte]
   exact ⟨_, rfl, by simp⟩
+
+/-! #### event_tuple / efilter_tuple (`tools/py2lean_evtuple.py`)
+
+`Gen.TrET.eventTuple` / `efilterTuple` are translated from the current source; they call the translated
+`_to_tuple` (`Gen.TrC.toTuple`), whose own tie is `translated_ctor_to_tuple_is_model` (EdzedProps/C18.lean). -/
+
+section EvTuple
+open Edzed.Gen.TrC Edzed.Gen.TrET Edzed.EventTuple
+
+theorem translated_output_event_tuple_is_model {σ ι : Type} (hasSend : ι → Bool) (events : ArgsT ι) :
+    (Gen.TrET.eventTuple hasSend events : M σ (List ι)) = ctorOfExcept (EventTuple.eventTuple hasSend events) := by
+  have hv : (Gen.TrET.eventTupleValidator hasSend : ι → M σ Unit) =
+      fun x => ctorOfExcept (if hasSend x then .ok () else .error "TypeError") := by
+    funext x s
+    cases h : hasSend x <;> simp [Gen.TrET.eventTupleValidator, h, ctorOfExcept, M.pure, raise]
+  unfold Gen.TrET.eventTuple EventTuple.eventTuple
+  rw [hv]
+  exact translated_ctor_to_tuple_is_model events _
+
+theorem translated_output_efilter_tuple_is_model {σ ι : Type} (isCallable : ι → Bool) (efilters : ArgsT ι) :
+    (Gen.TrET.efilterTuple isCallable efilters : M σ (List ι)) =
+      ctorOfExcept (EventTuple.efilterTuple isCallable efilters) := by
+  have hv : (Gen.TrET.efilterTupleValidator isCallable : ι → M σ Unit) =
+      fun x => ctorOfExcept (if isCallable x then .ok () else .error "TypeError") := by
+    funext x s
+    cases h : isCallable x <;> simp [Gen.TrET.efilterTupleValidator, h, ctorOfExcept, M.pure, raise]
+  unfold Gen.TrET.efilterTuple EventTuple.efilterTuple
+  rw [hv]
+  exact translated_ctor_to_tuple_is_model efilters _
+
+/-- what `_to_tuple` does to items that all pass the check -/
+theorem toTuple_all_valid {ι : Type} (args : ArgsT ι) (v : ι → Except Exc Unit)
+    (h : ∀ x ∈ args.items, v x = .ok ()) : RepeatCtor.toTuple args v = .ok args.items := by
+  have hall : ∀ l : List ι, (∀ x ∈ l, v x = .ok ()) → RepeatCtor.validateAll v l = .ok () := by
+    intro l
+    induction l with
+    | nil => intro _; rfl
+    | cons x xs ih =>
+      intro hl
+      simp only [RepeatCtor.validateAll, hl x (by simp)]
+      exact ih fun y hy => hl y (by simp [hy])
+  cases args with
+  | none => rfl
+  | tuple l => simp [RepeatCtor.toTuple, hall _ h]
+  | multiple l => simp [RepeatCtor.toTuple, hall _ h]
+  | single x => simp [RepeatCtor.toTuple, hall _ h]
+
+/-- **the normalised tuple has the same length and order as the argument sequence — every occurrence
+    is kept**: whenever the translated `event_tuple` returns, the result IS the sequence of the items of
+    its argument (an Event object listed twice or three times stays there twice or three times, nothing
+    is reordered, dropped or merged) and the state is untouched; and it does return when every item is
+    Event-like -/
+theorem translated_output_event_tuple_keeps_every_occurrence {σ ι : Type} (hasSend : ι → Bool)
+    (events : ArgsT ι) (s : σ) :
+    (∀ l, ((Gen.TrET.eventTuple hasSend events : M σ (List ι)) s).1 = .ok l →
+      l = events.items ∧ l.length = events.items.length) ∧
+    ((∀ x ∈ events.items, hasSend x = true) →
+      (Gen.TrET.eventTuple hasSend events : M σ (List ι)) s = (.ok events.items, s)) := by
+  rw [translated_output_event_tuple_is_model]
+  simp only [ctorOfExcept, EventTuple.eventTuple]
+  constructor
+  · intro l hl
+    have : l = events.items := by
+      cases events with
+      | none => simp [RepeatCtor.toTuple] at hl; simp [ArgsT.items, hl]
+      | tuple a =>
+        simp only [RepeatCtor.toTuple] at hl
+        split at hl <;> simp_all [ArgsT.items]
+      | multiple a =>
+        simp only [RepeatCtor.toTuple] at hl
+        split at hl <;> simp_all [ArgsT.items]
+      | single a =>
+        simp only [RepeatCtor.toTuple] at hl
+        split at hl <;> simp_all [ArgsT.items]
+    exact ⟨this, by rw [this]⟩
+  · intro h
+    rw [toTuple_all_valid events _ (fun x hx => by simp [h x hx])]
+
+/-- the same for the filters of an event -/
+theorem translated_output_efilter_tuple_keeps_every_occurrence {σ ι : Type} (isCallable : ι → Bool)
+    (efilters : ArgsT ι) (s : σ) (h : ∀ x ∈ efilters.items, isCallable x = true) :
+    (Gen.TrET.efilterTuple isCallable efilters : M σ (List ι)) s = (.ok efilters.items, s) := by
+  rw [translated_output_efilter_tuple_is_model]
+  simp only [ctorOfExcept, EventTuple.efilterTuple]
+  rw [toTuple_all_valid efilters _ (fun x hx => by simp [h x hx])]
+
+/-- an item that is not Event-like is refused with TypeError -/
+theorem translated_output_event_tuple_refuses_non_event {σ ι : Type} (hasSend : ι → Bool) (x : ι) (s : σ)
+    (h : hasSend x = false) :
+    (Gen.TrET.eventTuple hasSend (.single x) : M σ (List ι)) s = (.error "TypeError", s) := by
+  rw [translated_output_event_tuple_is_model]
+  simp [ctorOfExcept, EventTuple.eventTuple, RepeatCtor.toTuple, RepeatCtor.validateAll, ArgsT.items, h]
+
+/-- non-vacuity: `[A, B, A]` (A listed twice) stays `[A, B, A]`; `None` gives the empty tuple -/
+example : ((Gen.TrET.eventTuple (fun _ : String => true) (.multiple ["A", "B", "A"]) : M Unit _) ()).1
+    = .ok ["A", "B", "A"] ∧
+    ((Gen.TrET.eventTuple (fun _ : String => true) .none : M Unit _) ()).1 = .ok [] :=
+  ⟨rfl, rfl⟩
+
+end EvTuple
 
 end Edzed.TrTie
